@@ -57,7 +57,7 @@ def run(pid, tier):
     mine = {"C03": ("bounds", "monotonic"), "C04": ("components", "wellformed", "panic")}[pid]
     invariants = {"C03": ["Bounds", "Monotonic"], "C04": ["LawHolds", "CleanTagUnchanged"]}[pid]
     if tier == "quick":
-        sfx, rs, big = (ALL_SUFFIXES if pid == "C03" else ["", "-base-prerelease-post-dev", "-context", "-base"]), ([1] if pid == "C03" else [1, 3, 4]), False
+        sfx, rs, big = (ALL_SUFFIXES if pid == "C03" else ["", "-base-prerelease-post-dev", "-context"]), ([1] if pid == "C03" else [1, 2, 3, 4]), False
         hl = (5,)
     elif pid == "C03":
         # the order claims: every preset, the large tag / branch universe, the default and one custom rule set
@@ -154,7 +154,7 @@ def run(pid, tier):
                     "label {-,beta} x number {-,3} x post-mode {-,tag,commit} x hash length %s x %d rule sets x %d standard "
                     "presets, each observed in zerv/semver/pep440 output and with one more commit; non-trivial = dirty or "
                     "ahead of the tag. Trace: those observations + %d random runs."
-                    % (5 if big else 3, 14 if big else 7, list(hl), len(rs), len(sfx), n),
+                    % (5 if big else 3, 14 if big else 8, list(hl), len(rs), len(sfx), n),
                exhaustive=True, recorded_events=tev)
     return v.finish(tier, "model_checking", cov,
                     ["TLC and the CommunityModules JSON reader",
